@@ -260,6 +260,15 @@ class NPShim:
             raise TypeError("ufunc 'signbit' not supported for the input types")
         return SBool(T.to_real(x.v.re) < 0)
 
+    def arange(self, *args, **k):
+        if not any(is_proxy(a) for a in args):
+            return real_np.arange(*args, **k)
+        if any(P.as_v(a).kind != "int" for a in args if is_proxy(a)) or k:
+            raise Abort("np.arange with non-integer proxies")
+        # integer arange = the range of the same bounds as an int64 array (bounds within 64 bits: stated domain)
+        vals = list(srange(*args))
+        return make_sarray([shadow(real_np.int64)(v) if is_proxy(v) else real_np.int64(v) for v in vals], real_np.dtype(real_np.int64), (len(vals),))
+
     def isclose(self, a, b, rtol=1e-05, atol=1e-08, **k):
         if not (is_proxy(a) or is_proxy(b)):
             return real_np.isclose(a, b, rtol=rtol, atol=atol, **k)
@@ -365,8 +374,14 @@ def srange(*args):
     e.note("bound", "range trip count <= %d" % K)
     for k in builtins.range(K + 1):
         if e.branch(count_is(k)):
-            return [_lin(a, c, i) for i in builtins.range(k)]
+            r = SRange(_lin(a, c, i) for i in builtins.range(k))
+            r.start, r.stop, r.step = a, b, c
+            return r
     raise Abort("range trip count")
+
+
+class SRange(list):
+    """the unrolled symbolic range; keeps the attributes of a range object"""
 
 
 def _lin(a, c, i):
